@@ -78,6 +78,9 @@ def core_scenarios(maxh):
         ([H, H, H], maxh, 0, 0),                # no liar at all (reorganisations only)
         ([H, ("OM", 4), ("NH", 5)], 5, 3, 0),   # two disputed heights in one getcfheaders window
         ([H, ("OM", 3), H], 4, 0, 0),           # deep reorganisation below the disputed interval
+        ([H, ("HC", 3), T], maxh, 1, 0),        # false batched answer against true checkpoints
+        ([T, ("EX", 2), T], 4, 0, 2),           # only the liar answers: the hard-coded checkpoint decides
+        ([H, ("HC", 1), H], 3, 2, 0),           # at the tip a liar with a false PrevFilterHeader
     ]
     return S
 
